@@ -519,15 +519,15 @@ def generate(rng, tier, shard, nshards, mon):
             yield _sys_case(rng, depth, fam, explicit, default, fmts, mutable)
     mon.exhaustive["transform-family-x-attribute-config"] = True
     scale = 1 if tier == "quick" else 20
-    for _ in range(2400 * scale // nshards):
+    for _ in range(2000 * scale // nshards):
         empty = rng.random() < 0.03
         cfg = _tensor_cfg(rng, empty=empty, ctor="fromFiber" if empty else None)
         yield _xform_case(rng, cfg)
-    for _ in range(1600 * scale // nshards):
+    for _ in range(1200 * scale // nshards):
         yield _lazy_case(rng)
-    for _ in range(1200 * scale // nshards):
+    for _ in range(800 * scale // nshards):
         yield _join_case(rng)
-    for _ in range(1200 * scale // nshards):
+    for _ in range(800 * scale // nshards):
         yield _fiber_case(rng)
 
 
